@@ -18,6 +18,9 @@ pub struct Outcome {
     pub hist: BTreeMap<String, u64>,
     pub samples: Vec<String>,
     pub fails: Vec<String>,
+    /// model-validation trace: request lines for the Lean driver and the implementation's answers
+    pub model_ops: Vec<String>,
+    pub model_impl: Vec<String>,
 }
 
 impl Outcome {
@@ -32,6 +35,18 @@ impl Outcome {
             self.samples.extend(o.samples);
         }
         self.fails.extend(o.fails);
+        if self.model_ops.len() < 300_000 {
+            self.model_ops.extend(o.model_ops);
+            self.model_impl.extend(o.model_impl);
+        }
+    }
+    pub fn take_trace(&mut self, seed: u64, sim: &mut Sim) {
+        if !sim.model_ops.is_empty() {
+            self.model_ops.push(format!("case sim-{seed}"));
+            self.model_impl.push(format!("case sim-{seed}"));
+            self.model_ops.append(&mut sim.model_ops);
+            self.model_impl.append(&mut sim.model_impl);
+        }
     }
     pub fn count(&mut self, k: &str, n: u64) {
         *self.hist.entry(k.to_string()).or_default() += n;
@@ -43,6 +58,7 @@ pub type ScenFn = fn(u64, &mut Outcome);
 pub fn lookup(name: &str) -> Option<(&'static str, ScenFn)> {
     Some(match name {
         "xfer" => (XFER_RULE, xfer as ScenFn),
+        "amp" => (AMP_RULE, amp as ScenFn),
         _ => return None,
     })
 }
@@ -126,6 +142,7 @@ pub fn xfer(seed: u64, out: &mut Outcome) {
     sim.net = random_net(&mut rng);
     // `initial_mtu` above the real path MTU is a documented misconfiguration, not a supported configuration
     sim.net.path_mtu = sim.net.path_mtu.max(1400);
+    sim.model_trace = true;
     sim.nodes[CLIENT].max_datagrams = rng.range(1, 10) as usize;
     sim.nodes[SERVER].max_datagrams = rng.range(1, 10) as usize;
     if rng.chance(1, 3) {
@@ -272,4 +289,136 @@ pub fn xfer(seed: u64, out: &mut Outcome) {
     for f in sim.fails.drain(..) {
         out.fails.push(format!("{f} seed={seed}"));
     }
+    out.take_trace(seed, &mut sim);
+}
+
+pub const AMP_RULE: &str = "one execution = a server (random transport config, Retry on/off) facing: a genuine client whose datagrams stop arriving after its first K in {1..4} (so only server timers fire), 0..3 further clients at spoofed addresses that send one genuine Initial flight and vanish, replays of genuine client datagrams from spoofed addresses, and short-header garbage of 17..1400 bytes at random instants; 40 s of virtual time; oracles: per-datagram anti-amplification gate towards every unvalidated address (bytes received from that address counted by the simulator), stateless reset strictly smaller than the inciting datagram and at most one per min_reset_interval, every observed path transition validated against the Lean path model; non-trivial = server created >= 1 connection and retransmitted on a timer";
+
+pub fn amp(seed: u64, out: &mut Outcome) {
+    use std::cell::Cell;
+    use std::rc::Rc;
+    let mut rng = Rng::new(seed ^ 0xa3b);
+    let (ts, _) = random_transport(&mut rng);
+    let (tc, _) = random_transport(&mut rng);
+    let (mut sim, ccfg) = default_pair(seed, tc, ts);
+    sim.model_trace = true;
+    sim.keep_history = true;
+    sim.net.latency_ns = *rng.pick(&[1_000_000u64, 20_000_000]);
+    sim.net.path_mtu = 65000;
+    sim.nodes[SERVER].max_datagrams = rng.range(1, 10) as usize;
+    if rng.chance(1, 3) {
+        sim.nodes[SERVER].policy = IncomingPolicy::Retry;
+    }
+    let k = rng.range(1, 4);
+    let passed = Rc::new(Cell::new(0u64));
+    let p2 = passed.clone();
+    let client_addr = sim.nodes[CLIENT].addr;
+    sim.wire_filter = Some(Box::new(move |d: &mut Dgram, _r: &mut Rng| {
+        if d.from == client_addr {
+            p2.set(p2.get() + 1);
+            return p2.get() <= k;
+        }
+        true
+    }));
+    let _cch = sim.connect(ccfg.clone());
+    // further vanishing clients at spoofed addresses: one genuine first flight each
+    let extra = rng.below(4);
+    let mut pending_attacks: Vec<(u64, Dgram)> = Vec::new();
+    for i in 0..extra {
+        let (mut s2, c2) = default_pair(seed.wrapping_add(1000 + i), TransportConfig::default(), TransportConfig::default());
+        let ch = s2.connect(c2);
+        let mut buf = Vec::new();
+        let now = s2.t();
+        if let Some(t) = s2.conn(CLIENT, ch).poll_transmit(now, 1, &mut buf) {
+            let from = addr(50000 + i as u16);
+            let at = rng.below(5_000_000_000);
+            pending_attacks.push((at, Dgram { at: 0, seq: 0, from, to: sim.nodes[SERVER].addr, ecn: None, data: buf[..t.size].to_vec(), origin: usize::MAX, genuine: true }));
+        }
+    }
+    let n_garbage = rng.below(30);
+    for _ in 0..n_garbage {
+        let len = *rng.pick(&[17usize, 20, 21, 22, 30, 41, 42, 43, 60, 100, 500, 1200, 1400]);
+        let mut data = rng.bytes(len);
+        data[0] = 0x40 | (data[0] & 0x3f); // short header, fixed bit set
+        let from = addr(51000 + rng.below(3) as u16);
+        let at = rng.below(10_000_000_000);
+        pending_attacks.push((at, Dgram { at: 0, seq: 0, from, to: sim.nodes[SERVER].addr, ecn: None, data, origin: usize::MAX, genuine: false }));
+    }
+    let n_replay = rng.below(6);
+    let mut replays_left = n_replay;
+    pending_attacks.sort_by_key(|a| a.0);
+    let mut resets: Vec<(u64, usize, usize)> = Vec::new();
+    let mut last_ep_tx = 0usize;
+    let end = sim.run_until(40_000_000_000, 200_000, |sim| {
+        while let Some((at, _)) = pending_attacks.first() {
+            if *at > sim.now {
+                break;
+            }
+            let (_, mut d) = pending_attacks.remove(0);
+            d.at = sim.now;
+            let short = d.data[0] & 0x80 == 0;
+            let len = d.data.len();
+            let before_tx = sim.trace.len();
+            sim.handle_datagram(SERVER, d);
+            if short {
+                for r in &sim.trace[before_tx..] {
+                    if let Rec::EpTx { at, size, .. } = r {
+                        resets.push((*at, *size, len));
+                    }
+                }
+            }
+        }
+        if replays_left > 0 && sim.now > 50_000_000 && !sim.history.is_empty() && sim.steps % 7 == 0 {
+            replays_left -= 1;
+            let i = sim.rng.below(sim.history.len() as u64) as usize;
+            let mut d = sim.history[i].clone();
+            if d.origin == CLIENT {
+                d.from = addr(52000 + sim.rng.below(2) as u16);
+                d.at = sim.now;
+                d.origin = usize::MAX;
+                sim.push_wire(d);
+            }
+        }
+        let _ = &mut last_ep_tx;
+        false
+    });
+    // stateless reset oracles (C07)
+    for w in resets.windows(2) {
+        if w[1].0 < w[0].0 + 20_000_000 {
+            sim.fail("stateless-reset-rate-exceeded", format!("two stateless resets {} ns apart (min_reset_interval 20 ms)", w[1].0 - w[0].0));
+        }
+    }
+    for (at, size, inciting) in &resets {
+        if size >= inciting {
+            sim.fail("stateless-reset-not-smaller", format!("at {at}: reset of {size} bytes for a {inciting}-byte datagram"));
+        }
+    }
+    out.runs += 1;
+    out.evaluations += sim.steps;
+    let server_conns = sim.nodes[SERVER].conns.len();
+    let timeouts = sim.trace.iter().filter(|r| matches!(r, Rec::Timeout { node: 1, .. })).count();
+    if server_conns >= 1 && timeouts >= 1 {
+        out.nontrivial += 1;
+    }
+    out.count(&format!("end:{end:?}"), 1);
+    out.count("server-connections", server_conns as u64);
+    out.count("server-timeouts", timeouts as u64);
+    out.count("stateless-resets", resets.len() as u64);
+    out.count("attack-datagrams", extra + n_garbage + n_replay);
+    if out.samples.len() < 2 {
+        let sent: Vec<_> = sim.nodes[SERVER].sent_to.iter().map(|(a, b)| (a.port(), *b, *sim.nodes[SERVER].recv_from.get(a).unwrap_or(&0))).collect();
+        out.samples.push(format!("seed {seed}: client datagrams let through {k}, extra vanishing clients {extra}, garbage {n_garbage}, replays {n_replay}; server (port, sent, received) {sent:?}; resets {resets:?}"));
+    }
+    if std::env::var("VERIF_SIM_VERBOSE").is_ok() {
+        for r in &sim.trace {
+            eprintln!("{r:?}");
+        }
+        for (i, (o, m)) in sim.model_ops.iter().zip(sim.model_impl.iter()).enumerate() {
+            eprintln!("{i}: {o} => {m}");
+        }
+    }
+    for f in sim.fails.drain(..) {
+        out.fails.push(format!("{f} seed={seed}"));
+    }
+    out.take_trace(seed, &mut sim);
 }
